@@ -275,7 +275,10 @@ fn judge(ctx: &mut Ctx, rng: &mut Rng, tgt: &dyn Target, bytes: &[u8], d: &Decod
         let c = doc_cost(&d.env, t, v, table_len);
         // surplus arguments, untyped decoding and values read at `reserved` are skipped: 50x
         let penal = all_skipped || (skipped_lb > 0 && i > 0) || label.contains("Reserved");
-        model += if penal { 50 * c } else { c };
+        // a mismatched option is skipped (50x) after the failed attempt, and a value below k enclosing options can be
+        // skipped once per enclosing option that fails: the documented model, applied literally, charges every one
+        let refail = if all_skipped { 1 + opt_depth(v) } else { 1 };
+        model += if penal { 50 * c * refail } else { c };
     }
     // constant per-message overheads (a failed opt costs 10, times 50 when skipping) dominate tiny messages:
     // the multiple is judged after an absolute allowance
@@ -295,6 +298,17 @@ fn judge(ctx: &mut Ctx, rng: &mut Rng, tgt: &dyn Target, bytes: &[u8], d: &Decod
         ctx.max(&format!("cost/node:{fam}"), m.cd as f64 / nodes as f64);
     }
     ctx.count(&format!("agree:{fam}"));
+}
+
+/// number of options on the deepest path of a value
+fn opt_depth(v: &RValue) -> u64 {
+    match v {
+        RValue::Opt(x) => 1 + opt_depth(x),
+        RValue::Variant(_, x) => opt_depth(x),
+        RValue::Vec(xs) => xs.iter().map(opt_depth).max().unwrap_or(0),
+        RValue::Record(fs) => fs.iter().map(|f| opt_depth(&f.1)).max().unwrap_or(0),
+        _ => 0,
+    }
 }
 
 pub fn run(ctx: &mut Ctx) {
